@@ -11,6 +11,7 @@ import (
 
 	zed "github.com/brimdata/super"
 	"github.com/brimdata/super/zio/zngio"
+	"github.com/brimdata/super/zson"
 
 	"verif/gen"
 	"verif/rep"
@@ -258,6 +259,62 @@ func TestC01(t *testing.T) {
 		}
 	})
 	run.Sample(map[string]any{"part": "short sequences", "sequences": len(seqs), "example": names(seqs[len(seqs)/3])})
+	// (3) type-id reuse across streams: every sequence of length <= 4 over shapes whose
+	// types nest in one another (so that a local type id denotes different types in
+	// consecutive streams, and a frame can refer to a higher id before a lower one),
+	// every end-of-stream placement
+	shapeText := []string{`{x:1}`, `{b:11}`, `{a:{b:10}}`, `{a:{x:1}}`, `[{b:1}]`, `{x:"s"}`, `7`}
+	var shapes []gen.Value
+	for _, st := range shapeText {
+		v, err := zson.ParseValue(zA, st)
+		if err != nil {
+			t.Fatalf("harness: %v", err)
+		}
+		shapes = append(shapes, gen.Value{Name: st, Val: v})
+	}
+	var idSeqs [][]gen.Value
+	var build func(prefix []gen.Value, n int)
+	build = func(prefix []gen.Value, n int) {
+		if len(prefix) >= 2 {
+			idSeqs = append(idSeqs, append([]gen.Value(nil), prefix...))
+		}
+		if n == 0 {
+			return
+		}
+		for _, sh := range shapes {
+			build(append(prefix, sh), n-1)
+		}
+	}
+	maxLen := 4
+	if rep.Thorough() {
+		maxLen = 5
+	}
+	build(nil, maxLen)
+	parallel(len(idSeqs), func(si int) {
+		seq := idSeqs[si]
+		if past.Load() || time.Now().After(deadline) {
+			past.Store(true)
+			return
+		}
+		var vals []zed.Value
+		for _, v := range seq {
+			vals = append(vals, v.Val)
+		}
+		for _, wc := range []zngWriteCfg{{Compress: false, Thresh: 1}, {Compress: true, Thresh: 1 << 20}} {
+			for eos := uint(1); eos < 1<<uint(len(seq)-1); eos++ {
+				wc.EOS = eos
+				b, err := zngWrite(vals, wc)
+				if err != nil {
+					run.Violation("symptom=write-error: "+errClass(err), map[string]any{"values": names(seq)})
+					continue
+				}
+				for _, rc := range []zngReadCfg{{Threads: 1, Source: "whole"}, {Threads: 2, Source: "whole"}, {Threads: 1, Scanner: true, Validate: true, Source: "whole"}} {
+					check(names(seq), vals, b, fmt.Sprint(wc), rc)
+				}
+			}
+		}
+	})
+	run.Sample(map[string]any{"part": "type-id reuse across streams", "sequences": len(idSeqs), "shapes": shapeText})
 	// (3) concatenation of independently written streams (typedef ids restart)
 	nconc := 0
 	for _, a := range smallA {
@@ -294,7 +351,7 @@ func TestC01(t *testing.T) {
 		exhaustive = false
 	}
 	run.Set("exhaustive", exhaustive)
-	run.Set("rule", "values: the boundary universe (every kind, nesting to depth 2, thorough 3; types drawn alternately from two contexts); sequences: every value alone, all pairs and a slice of triples over a 17-value sub-universe with every end-of-stream placement, concatenations of independently written streams, and one sequence holding the whole universe; writer: compress in {off,on} x frameThresh in {1,2,7,64,2^20}; reader: threads in {1,2,3} x read size in {1,16,default} x validate in {off,on} x {Read, NewScanner/Pull}, into the writer's context and into a fresh one; source delivering all at once, one byte per call, or split at every offset (streams <= 64 B). Oracle: decoded sequence == written sequence (length, order, structural type, value bytes). distinct = distinct value sequences")
+	run.Set("rule", "values: the boundary universe (every kind, nesting to depth 2, thorough 3; types drawn alternately from two contexts); sequences: every value alone, all pairs and a slice of triples over a 17-value sub-universe with every end-of-stream placement, concatenations of independently written streams, one sequence holding the whole universe, and every sequence of length 2..4 (thorough 5) over seven shapes whose record types nest in one another with every end-of-stream placement (so that a local type id denotes different types in consecutive streams); writer: compress in {off,on} x frameThresh in {1,2,7,64,2^20}; reader: threads in {1,2,3} x read size in {1,16,default} x validate in {off,on} x {Read, NewScanner/Pull}, into the writer's context and into a fresh one; source delivering all at once, one byte per call, or split at every offset (streams <= 64 B). Oracle: decoded sequence == written sequence (length, order, structural type, value bytes). distinct = distinct value sequences")
 	run.Assume("decode-worker interleavings are exercised by free-running goroutines here (threads 2,3); systematic exploration of those schedules needs source instrumentation and is reported separately when present")
 }
 
